@@ -276,10 +276,15 @@ var natOptions = map[[3]uint8][]string{
 	{1, 0, 0}: {"é", "ï", "à", "ë", "ê", "ù", "î", "#", "è", "â", "ô", "û", "ç"}, // French
 	{1, 0, 1}: {"ç", "$", "¡", "á", "é", "í", "ó", "ú", "¿", "ü", "ñ", "è", "à"}, // Portuguese/Spanish
 	{1, 1, 0}: {"#", "ů", "č", "ť", "ž", "ý", "í", "ř", "é", "á", "ě", "ú", "š"}, // Czech/Slovak
+	// second Latin row of table 32 (designation bits 14-11 = 0001) with C12-C14 = 000; pseudo-key, only reachable
+	// through an X/28 or M/29 designation
+	natPolishKey: {"#", "ń", "ą", "Ż", "Ś", "Ł", "ć", "ó", "ę", "ż", "ś", "ł", "ź"},
 }
 
+var natPolishKey = [3]uint8{9, 9, 9}
+
 // glyphAlternatives: arrows and bars of the standard that de-facto decoders (telxcc) approximate.
-var glyphAlternatives = map[string]string{"←": "«", "→": "»", "↑": "^", "―": "-", "‖": "¦"}
+var glyphAlternatives = map[string]string{"←": "«", "→": "»", "↑": "^", "―": "-", "‖": "¦", "Ż": "Ƶ"}
 
 // ttxDecode gives the text a row of cells denotes under a national option, and the same text
 // with the de-facto approximations.
@@ -446,6 +451,11 @@ func (s ttxStream) render() ([]byte, []ttxExpCue) {
 		if s.Designation == 2 {
 			units = append(units, designationUnit(s.Mag, 29, in.C12, in.C13, in.C14, 0))
 		}
+		if s.Designation == 4 && ii == 0 || s.Designation == 5 {
+			// the magazine's default character set is the second Latin row of table 32 (Polish under C12-C14 = 000), announced
+			// once before the first page header of the stream, or before every header; no X/28 contradicts it
+			units = append(units, designationUnit(s.Mag, 29, 0, 0, 0, 1))
+		}
 		if s.Designation == 3 {
 			// the magazine-wide default (M/29) names the first Cyrillic set, the page's own X/28 names Latin: X/28 wins
 			units = append(units, designationUnit(s.Mag, 29, 0, 0, 0, 4))
@@ -563,6 +573,9 @@ func (s ttxStream) render() ([]byte, []ttxExpCue) {
 			}
 		}
 		opt := [3]uint8{in.C12, in.C13, in.C14}
+		if s.Designation >= 4 {
+			opt = natPolishKey
+		}
 		for _, r := range rows {
 			// a row left without any text (its only characters failed parity) yields no line
 			if opt == [3]uint8{1, 1, 1} {
@@ -810,7 +823,7 @@ func genTTXStream(t *rapid.T) ttxStream {
 		SamePageOther: rapid.Bool().Draw(t, "samepage"),
 		OptPage:       rapid.Bool().Draw(t, "optpage"),
 		OptPID:        rapid.Bool().Draw(t, "optpid"),
-		Designation:   rapid.SampledFrom([]int{0, 0, 1, 2, 3}).Draw(t, "designation"),
+		Designation:   rapid.SampledFrom([]int{0, 0, 1, 2, 3, 4, 5}).Draw(t, "designation"),
 	}
 	pts := rapid.Int64Range(2, 90000*3600).Draw(t, "pts0")
 	if rapid.Bool().Draw(t, "leadin") {
@@ -823,6 +836,9 @@ func genTTXStream(t *rapid.T) ttxStream {
 	opts := [][3]uint8{{0, 0, 0}, {0, 0, 1}, {0, 1, 0}, {0, 1, 1}, {1, 0, 0}, {1, 0, 1}, {1, 1, 0}, {1, 1, 1}}
 	for i := 0; i < n; i++ {
 		o := rapid.SampledFrom(opts).Draw(t, "natopt")
+		if s.Designation >= 4 {
+			o = [3]uint8{0, 0, 0}
+		}
 		in := ttxInstance{PTS: pts, C12: o[0], C13: o[1], C14: o[2]}
 		if rapid.IntRange(0, 4).Draw(t, "eraseonly") > 0 || i == 0 {
 			nr := rapid.IntRange(1, 4).Draw(t, "rows")
